@@ -689,7 +689,11 @@ func allInjections() []injection {
 			return true
 		}),
 		acctInj("P default permissions", func(g *cleanGen, ac *jwt.AccountClaims) bool {
-			switch g.rng.Intn(4) {
+			switch g.rng.Intn(6) {
+			case 4: // blanks at the edges or doubled: the blank-split has an empty part
+				ac.DefaultPermissions.Sub.Allow.Add(g.pick("orders.> ", " orders.>", "orders.>  work", "a ", " a q"))
+			case 5:
+				ac.DefaultPermissions.Pub.Deny.Add(g.pick("foo ", " foo", "  ", " "))
 			case 0:
 				ac.DefaultPermissions.Pub.Allow.Add("pub.with queue") // queues only on subscribe
 			case 1:
@@ -805,7 +809,11 @@ func allInjections() []injection {
 		}},
 		{"U1 user permissions", "user", func(g *cleanGen, c jwt.Claims) bool {
 			uc := c.(*jwt.UserClaims)
-			switch g.rng.Intn(3) {
+			switch g.rng.Intn(5) {
+			case 3: // blanks at the edges or doubled: the blank-split has an empty part
+				uc.Sub.Allow.Add(g.pick("orders.> ", " orders.>", "orders.>  work", "x.y ", " x q"))
+			case 4:
+				uc.Pub.Allow.Add(g.pick("foo ", " foo", " "))
 			case 0:
 				uc.Pub.Allow.Add("p q")
 			case 1:
